@@ -6,9 +6,13 @@ CONSTANTS
  MaxTime = 3
  MaxCalls = 4
  WriteInLock = TRUE
+ MaxFails = 0
+ ReleaseOnError = TRUE
  Recheck = FALSE
 INVARIANT FetchOnce
 INVARIANT ReturnsFresh
 INVARIANT MutualExclusion
 INVARIANT LockOwner
+INVARIANT NoLeak
+INVARIANT CacheFromFetch
 CHECK_DEADLOCK FALSE
